@@ -285,6 +285,11 @@ class Normalizer:
                 return self._T(self.n(node.args[0]))
             if lib in MATMUL_FUNCS and len(node.args) == 2:
                 return self._matmul([self.n(node.args[0]), self.n(node.args[1])])
+            if lib in ("numpy.linalg.solve", "scipy.linalg.solve") and len(node.args) == 2 and not node.keywords:
+                # solve(A, B) == inv(A) @ B
+                return self._matmul([("call", "numpy.linalg.inv", (self.n(node.args[0]),), ()), self.n(node.args[1])])
+            if lib == "scipy.linalg.inv" and len(node.args) == 1 and not node.keywords:
+                return ("call", "numpy.linalg.inv", (self.n(node.args[0]),), ())
             if lib == "numpy.real" and len(node.args) == 1:
                 return ("real", self.n(node.args[0]))
             if lib == "numpy.imag" and len(node.args) == 1:
